@@ -18,7 +18,9 @@
 (***************************************************************************)
 EXTENDS UnitConv, Json
 
-CONSTANTS KnownDevs, Emit, LinPrefixes, Rests
+CONSTANTS KnownDevs, Emit, LinPrefixes, Rests,
+          LatMax        \* the lattice ref*10^n is explored for n in -LatMax..LatMax (the physically meaningful range:
+                        \* thermal noise is -174 dBm, ratios of 1e-18 .. 1e18)
 
 VARIABLES v_st, v_a, v_b, v_n
 
@@ -44,7 +46,7 @@ Partners(p, u) ==
 
 Init == v_st = "root" /\ v_a = <<>> /\ v_b = <<>> /\ v_n = 0
 Next ==
-  \/ /\ v_st = "root" /\ v_st' = "lat" /\ v_n' \in (0 - 3)..3
+  \/ /\ v_st = "root" /\ v_st' = "lat" /\ v_n' \in (0 - LatMax)..LatMax
      /\ \E i \in 1..Len(LogDefs) : v_a' = One(0, UIdx(LogDefs[i].name)) /\ v_b' = <<>>
   \/ /\ v_st = "root" /\ v_st' = "a" /\ v_n' = 0 /\ v_b' = <<>>
      /\ \E u \in LogIdx : \E p \in AdmP(u) : v_a' = One(p, u)
@@ -52,7 +54,8 @@ Next ==
      /\ v_b' \in Partners(v_a[1][1][2], v_a[1][1][3]) /\ UNCHANGED v_a
   \/ /\ v_st = "a" /\ v_st' = "frac" /\ v_n' \in 1..(2 * Len(Rests))          \* odd: A/R -> C/R, even: C/R -> A/R
      /\ HasDef(Units[v_a[1][1][3]].name) /\ v_b' = CpSide(Units[v_a[1][1][3]].name, 0) /\ UNCHANGED v_a
-  \/ /\ v_st = "a" /\ v_st' = "sum" /\ v_n' \in {1, 0 - 1} /\ Units[v_a[1][1][3]].name \in BelNames
+  \* 1: a + b, -1: a - b, 2: q + q with THE SAME quantity on both sides, 3: s + s where s is itself a level sum
+  \/ /\ v_st = "a" /\ v_st' = "sum" /\ v_n' \in {1, 0 - 1, 2, 3} /\ Units[v_a[1][1][3]].name \in BelNames
      /\ v_a[1][1][2] \in {0, PIdx("d")} /\ UNCHANGED <<v_a, v_b>>
 
 (* ---- lattice lemmas *)
@@ -84,7 +87,7 @@ Tags == (IF Identical THEN {"identity"} ELSE {})
         \cup (IF RestScaled THEN {"log_fraction_scaled"} ELSE {})
         \cup {Kind}
 \* exact points: level k*n bels  <->  ref * 10^n
-LatticeN == {0 - 3, 0 - 1, 0, 2, 3}
+LatPts == <<0 - LatMax, 0 - 17, 0 - 9, 0 - 3, 0 - 1, 0, 2, 9, LatMax>>
 LatPoint(n) ==
   LET a == SingleName(Core(From))  b == SingleName(Core(To)) IN
   CASE Kind = "log_lin" -> [x |-> <<"div", Q(KOf(LDef(a).fam) * n, 1), PrefixTerm(Core(From))>>,
@@ -102,10 +105,14 @@ PairRefines == v_st \in {"pair", "frac"} /\ Kind # "" /\ Kind # "log_offset" => 
 
 PairRecord == [st |-> v_st, a |-> Join(Render(From)), b |-> Join(Render(To)), kind |-> Kind, expect |-> LogExpect(Kind, Core(From), Core(To)),
                scale |-> PrefixTerm(Core(From)), tol |-> LogTol(Kind), positive |-> NeedsPositive(Kind), optional |-> Kind = "log_offset",
-               lattice |-> IF HasLattice THEN [i \in 1..5 |-> LatPoint(<<0 - 3, 0 - 1, 0, 2, 3>>[i])] ELSE <<>>,
+               lattice |-> IF HasLattice THEN [i \in 1..Len(LatPts) |-> LatPoint(LatPts[i])] ELSE <<>>,
                mach |-> MRule(From, To), tags |-> Tags, known |-> Tags \cap KnownDevs # {}]
-SumRecord == [st |-> "sum", a |-> Join(Render(v_a)), sign |-> v_n, scale |-> PrefixTerm(v_a),
-              expect |-> LevelSumTerm(v_a, <<"x">>, <<"y">>, v_n), tags |-> {"level_sum", LName}]
+\* the operands of a level sum may be one and the same quantity: the sum is then LevelSum(x, x)
+SumRecord == [st |-> "sum", a |-> Join(Render(v_a)), sign |-> IF v_n = 0 - 1 THEN 0 - 1 ELSE 1,
+              alias |-> IF v_n = 2 THEN "same_object" ELSE IF v_n = 3 THEN "sum_of_sum" ELSE "distinct",
+              scale |-> PrefixTerm(v_a),
+              expect |-> LevelSumTerm(v_a, <<"x">>, IF v_n \in {2, 3} THEN <<"x">> ELSE <<"y">>, IF v_n = 0 - 1 THEN 0 - 1 ELSE 1),
+              tags |-> {"level_sum", LName} \cup (IF v_n \in {2, 3} THEN {"same_operand"} ELSE {})]
 EmitInv == Emit =>
    /\ v_st \in {"pair", "frac"} /\ Kind # "" => PrintT(ToJson(PairRecord))
    /\ v_st = "sum" => PrintT(ToJson(SumRecord))
